@@ -18,9 +18,62 @@ GRAPH_PY = 'ml_pipeline_engine/dag/graph.py'
 
 class MgrContract(Contract):
     path = MANAGER_PY
+    replayable = False        # sequential helpers set this: their counter-models are replayed on the real code
 
     def mv(self, snap, a):
         return MV(snap, a.self)
+
+    def witness(self, model, ctx):
+        if not self.replayable:
+            return None
+        from pyvc.concretize import universe, to_json, ev, map_to_json, set_to_json
+        from pyvc.libmodels import NODE_FIELDS, EDGE_FIELDS
+        from .shapes import STORAGE_FIELDS
+        pre, a = ctx['pre'], ctx['a']
+        st = ctx['it'].st
+        m = self.mv(pre, a)
+        args = {}
+        for name, val in vars(a).items():
+            if name in ('self', 'dag', 'seq', 'coro_tasks'):
+                continue
+            try:
+                args[name] = T(val, st)
+            except Exception:
+                pass
+        keys = universe(model, extra=list(args.values()) + [m.input, m.output])
+        # candidate models may be partial w.r.t. the quantified well-formedness axiom "edges connect nodes": repair it
+        touched = set()
+        for u in keys:
+            for v in keys:
+                if z3.is_true(ev(model, m.G.edge(u, v))):
+                    touched.add(u.sexpr())
+                    touched.add(v.sexpr())
+        nodes = [k for k in keys if z3.is_true(ev(model, m.G.node(k))) or k.sexpr() in touched]
+        w = {'kind': 'manager', 'method': self.name.split('.')[1], 'args': {k: to_json(ev(model, t)) for k, t in args.items()},
+             'input': to_json(ev(model, m.input)), 'output': to_json(ev(model, m.output))}
+        g = {'nodes': [to_json(n) for n in nodes], 'edges': [], 'na': {}, 'ea': {}}
+        for f in NODE_FIELDS:
+            g['na'][f] = [[to_json(n), to_json(ev(model, m.G.na(f, n)))] for n in nodes if not z3.is_true(ev(model, m.G.na(f, n) == NONE))]
+        for u in nodes:
+            for v in nodes:
+                if z3.is_true(ev(model, m.G.edge(u, v))):
+                    g['edges'].append([to_json(u), to_json(v)])
+                    for f in EDGE_FIELDS:
+                        val = ev(model, m.G.ea(f, u, v))
+                        if not z3.is_true(ev(model, val == NONE)):
+                            g['ea'].setdefault(f, []).append([to_json(u), to_json(v), to_json(val)])
+        w['graph'] = g
+        skeys = keys + [PyV.tup2(x, y) for x in nodes[:4] for y in nodes[:4]]
+        w['storage'] = {f: {'data': map_to_json(model, getattr(m.S, f).data, skeys),
+                            'hidden': set_to_json(model, getattr(m.S, f).hidden, skeys)} for f in STORAGE_FIELDS}
+        w['input_kwargs'] = map_to_json(model, m.input_kwargs, keys)
+        if hasattr(a, 'dag') and isinstance(a.dag, Ref):
+            sub = SubV(pre, a.dag)
+            w['dag'] = {'nodes': [to_json(n) for n in nodes if z3.is_true(ev(model, sub.node(n)))],
+                        'is_recurrent': z3.is_true(ev(model, sub.is_recurrent)), 'is_oneof': z3.is_true(ev(model, sub.is_oneof)),
+                        'is_nested_oneof': z3.is_true(ev(model, sub.is_nested_oneof)),
+                        'source': to_json(ev(model, sub.source)), 'dest': to_json(ev(model, sub.dest))}
+        return w
 
     def fresh_node(self, it, hint='n'):
         return SymV(it.st.fresh_val(hint))
@@ -29,6 +82,7 @@ class MgrContract(Contract):
 # --------------------------------------------------------------------------------------
 @contract
 class M_is_switch(MgrContract):
+    replayable = True
     name = 'DAGRunConcurrentManager._is_switch'
     returns = 'bool'
     props = ('C01', 'C03', 'C09', 'C02', 'C06')
@@ -45,6 +99,7 @@ class M_is_switch(MgrContract):
 
 @contract
 class M_is_head_of_oneof(MgrContract):
+    replayable = True
     name = 'DAGRunConcurrentManager._is_head_of_oneof'
     returns = 'bool'
     props = ('C03', 'C10', 'C06')
@@ -275,6 +330,7 @@ SW_OF = z3.Function('switch_decider_of', PyV, PyV)
 
 @contract
 class M_add_case_result(MgrContract):
+    replayable = True
     name = 'DAGRunConcurrentManager._add_case_result'
     returns = 'none'
     props = ('C09', 'C01', 'C05')
@@ -361,6 +417,7 @@ ADDL = mk_str('additional_data')
 
 @contract
 class M_get_node_kwargs(MgrContract):
+    replayable = True
     name = 'DAGRunConcurrentManager._get_node_kwargs'
     returns = 'dict'
     props = ('C01', 'C03', 'C09', 'C07', 'C08', 'C11')
@@ -451,6 +508,7 @@ def mgr_and_dag(it):
 
 @contract
 class M_get_node_order(MgrContract):
+    replayable = True
     name = 'DAGRunConcurrentManager._get_node_order'
     returns = 'list'
     props = ('C04', 'C06', 'C11', 'C03')
@@ -492,6 +550,7 @@ class M_get_node_order(MgrContract):
 
 @contract
 class M_get_node_dependencies(MgrContract):
+    replayable = True
     name = 'DAGRunConcurrentManager._get_node_dependencies'
     returns = 'set'
     props = ('C03', 'C10', 'C11')
@@ -524,6 +583,7 @@ def BASE_PRED(it, pre, m, dag, n, x):
 
 @contract
 class M_get_predecessors(MgrContract):
+    replayable = True
     name = 'DAGRunConcurrentManager._get_predecessors'
     returns = 'list'
     props = ('C01', 'C03', 'C09', 'C10', 'C11')
@@ -580,6 +640,7 @@ def READY(m, p):
 
 @contract
 class M_is_ready_to_execute(MgrContract):
+    replayable = True
     name = 'DAGRunConcurrentManager._is_ready_to_execute'
     returns = 'bool'
     props = ('C01', 'C03', 'C06', 'C09', 'C10', 'C11')
@@ -613,6 +674,7 @@ class M_is_ready_to_execute(MgrContract):
 
 @contract
 class M_has_subgraph_error(MgrContract):
+    replayable = True
     name = 'DAGRunConcurrentManager.__has_subgraph_error'
     returns = 'bool'
     props = ('C10', 'C03', 'C11')
@@ -642,6 +704,7 @@ def notif_axioms(m):
 
 @contract
 class M_get_descendants(MgrContract):
+    replayable = True
     name = 'DAGRunConcurrentManager.__get_descendants'
     returns = 'list'
     props = ('C02', 'C09')
